@@ -579,6 +579,13 @@ def _open_histories():
         "edit_close_reopen_from_disk": [("open", "a.f90", None), ("change", "a.f90", ins2), ("close", "a.f90", None), ("open", "a.f90", None)],
         "edit_close_reopen_with_text": [("open", "a.f90", None), ("change", "a.f90", ins2), ("close", "a.f90", None), ("open", "a.f90", disk)],
         "open_without_text": [("open", "a.f90", None), ("change", "a.f90", ins)],
+        # texts that differ from the file only in ways str.splitlines hides
+        "open_text_without_final_break": [("open", "a.f90", disk[:-1])],
+        "open_text_with_second_final_break": [("open", "a.f90", disk + "\n")],
+        "open_text_with_form_feed": [("open", "a.f90", "program a\x0c! x\nend program a\n")],
+        "open_text_with_line_separator": [("open", "a.f90", "program a ! \u2028 \x85\nend program a\n")],
+        "open_text_with_tab": [("open", "a.f90", "program a\n\tinteger :: i\nend program a\n"),
+                               ("change", "a.f90", {"range": {"start": {"line": 1, "character": 1}, "end": {"line": 1, "character": 1}}, "text": "x"})],
     }
     for hname, steps in histories.items():
         ws = Workspace({"a.f90": disk})
